@@ -258,6 +258,27 @@ def rule_e_loop_exit(ctx, cfg='prod-all'):
                     i = s['rv']['fields'].index('e')
                     at = fr.lift(fr.fd.read_op(s['rv']['ops'][i]))
                     e_ok = e_ok or (any(a[0] == 'o' and a[1].endswith('thread_rng') for a in at) and any(a[0] == 'a' and a[1].endswith('::le') for a in at))
+        # every candidate of the search is random_prime(le): the argument itself, not just some dependence on le
+        za_ = ctx.zone(cfg)
+        prime_args = []
+        for fr in walk(eng, entry.path, max_depth=4, include_closures=True):
+            if fr.path != entry.path and not fr.path.startswith(('cl03::signature::', 'cl03::blind::')):
+                continue
+            if fr.body.kind != 'Closure':
+                za_.summary(fr.path)
+            for bi_, t_ in fr.body.calls():
+                if (local_target(eng, t_) or '').endswith('utils::random::random_prime') and t_['args']:
+                    o_ = t_['args'][0]
+                    for _ in range(4):
+                        if o_.get('k') in ('copy', 'move') and not o_['pl'].get('p'):
+                            ds_ = fr.fd.defs.get(o_['pl']['l'], [])
+                            if len(ds_) == 1 and ds_[0][0] == 'assign' and ds_[0][2]['rv'].get('k') in ('use', 'cast'):
+                                o_ = ds_[0][2]['rv']['op']
+                                continue
+                        break
+                    prime_args.append(str(o_.get('uneval') or o_.get('disp') or '?').split('::')[-1] if o_.get('k') == 'const' else '?')
+        yield Ob('RF-Q', '%s#e-candidates' % entry.path, bool(prime_args) and all(x == 'le' for x in prime_args),
+                 'every candidate exponent is random_prime(le)', entry.span, fact={'arguments': sorted(set(prime_args))}, expected='le')
         ok = prime_in_loop and all(found.values()) and e_ok
         yield Ob('RF-Q', '%s#e-loop-exit' % entry.path, ok,
                  'the issued exponent leaves the generate-and-test loop only when 2^(le-1) < e < 2^le and gcd(e, phi(N)) == 1, and comes from random_prime(le)',
@@ -477,6 +498,149 @@ def rule_range_statement_intervals(ctx, cfg='prod-all'):
     yield Ob('RF-Q', 'cl03::proof#range-statements', not bad, 'every range proof is made and checked for the interval of the quantity it is about', '',
              fact={'calls': n, 'prover_calls': sides['prove'], 'verifier_calls': sides['verify'], 'other_intervals': bad[:6]}, expected='tabled intervals')
     yield Ob('RF-Q', 'cl03::proof#range-statement-calls', sides['prove'] >= 2 and sides['verify'] >= 2, 'range prover / verifier calls examined', '', fact=sides, expected='>= 2 each', nontrivial=False)
+
+
+SP = 'cl03::sigma_protocols::'
+PROVER_VERIFIER_PAIRS = [
+    (RP + 'proof_same_secret', RP + 'verify_same_secret'),
+    (RP + 'proof_large_interval_specific', RP + 'verify_large_interval_specific'),
+    (SP + 'NISP2Commitments::nisp2_generate_proof_MultiSecrets', SP + 'NISP2Commitments::nisp2_verify_proof_MultiSecrets'),
+    (SP + 'NISPMultiSecrets::nispMultiSecrets_generate_proof', SP + 'NISPMultiSecrets::nispMultiSecrets_verify_proof'),
+    (SP + 'NISPSecrets::nisp2sec_generate_proof', SP + 'NISPSecrets::nisp2sec_verify_proof'),
+    (SP + 'NISPSignaturePoK::nisp5_MultiAttr_generate_proof', SP + 'NISPSignaturePoK::nisp5_MultiAttr_verify_proof'),
+]
+
+
+PAIR_FORM = {PROVER_VERIFIER_PAIRS[0][0]: (4, 6), PROVER_VERIFIER_PAIRS[1][0]: (2, 3), PROVER_VERIFIER_PAIRS[2][0]: (4, 6), PROVER_VERIFIER_PAIRS[3][0]: (2, 3),
+             PROVER_VERIFIER_PAIRS[4][0]: (2, 3), PROVER_VERIFIER_PAIRS[5][0]: (13, 19)}
+
+
+def _operand_name(b, fd, op):
+    """the parameter (with its named members) or the named local an operand stands for, through borrows, copies, clones and element access"""
+    if op.get('k') not in ('copy', 'move'):
+        return 'literal'
+    r, path = fd.resolve_place(op['pl'])
+    if fd.is_param(r):
+        return b.local_name(r) + ''.join('.' + x for x in path if not str(x).isdigit())
+    l = op['pl']['l']
+    for _ in range(8):
+        n = b.locals[l].get('name')
+        if n:
+            return n
+        ds = fd.defs.get(l, [])
+        if len(ds) != 1:
+            break
+        k, _b, x = ds[0]
+        if k == 'assign' and x['rv'].get('k') in ('use', 'cast') and x['rv']['op'].get('k') in ('copy', 'move'):
+            l = x['rv']['op']['pl']['l']
+            continue
+        if k == 'assign' and x['rv'].get('k') == 'ref':
+            l = x['rv']['pl']['l']
+            continue
+        if k == 'call' and (x.get('callee') or '').endswith(('Deref::deref', 'Clone::clone', 'From::from', 'Index::index', '::get', '::unwrap', '::expect')) \
+                and x['args'] and x['args'][0].get('k') in ('copy', 'move'):
+            l = x['args'][0]['pl']['l']
+            continue
+        break
+    r2, p2 = fd.resolve_place({'l': l})
+    if fd.is_param(r2):
+        return b.local_name(r2) + ''.join('.' + x for x in p2 if not str(x).isdigit())
+    return '_'
+
+
+def _powers(prog, eng, path):
+    b = prog.bodies.get(path)
+    if b is None:
+        return []
+    fd = eng.fndep(path)
+    calls = [(t.get('line') or 0, bi, t) for bi, t in b.calls() if (t.get('callee') or '').split('::')[-1] in ('pow_mod_ref', 'pow_mod', 'secure_pow_mod', 'secure_pow_mod_ref')]
+    out = []
+    for ln, bi, t in sorted(calls, key=lambda z: (z[0], z[1])):
+        base, exp = _operand_name(b, fd, t['args'][0]), _operand_name(b, fd, t['args'][1])
+        base = base[len('self.'):] if base.startswith('self.') else base
+        base = base[:-len('.value')] if base.endswith('.value') else base
+        out.append((base, exp.split('.')[-1], ln))
+    return out
+
+
+def rule_prover_verifier_bases(ctx, cfg='prod-all'):
+    """A sigma protocol's prover raises a list of bases to its masks (`w_1 = g_1^omega * h_1^mu_1`, `w_2 = g_2^omega * h_2^mu_2`); its verifier raises
+    the *same bases in the same order* to the responses that took the masks' places (`g_1^d * h_1^d_1 * E^-c`, ..), plus the commitments to the
+    challenge.  For every prover / verifier pair: the prover's sequence of bases is a subsequence of the verifier's, and where two positions share an
+    exponent on one side they share one on the other (omega twice <-> d twice).  A swapped base (`g` for `h`), a mask used at the wrong position
+    (`mu_2` under `h_1`) or a response read from the wrong member breaks the correspondence - honest proofs stop verifying, and nothing else in the
+    code notices, because each side is consistent with itself."""
+    prog, eng = ctx.prog(cfg), ctx.eng(cfg)
+    n = 0
+    for pp, vp in PROVER_VERIFIER_PAIRS:
+        P, V = _powers(prog, eng, pp), _powers(prog, eng, vp)
+        n += 1
+        # align: greedy subsequence match of the prover's bases in the verifier's
+        j, pairs, lost = 0, [], []
+        for base, exp, ln in P:
+            k = j
+            while k < len(V) and V[k][0] != base:
+                k += 1
+            if k == len(V):
+                lost.append({'base': base, 'mask': exp, 'line': ln})
+                continue
+            pairs.append(((base, exp), V[k]))
+            j = k + 1
+        # exponents: one response per mask
+        fwd, back, clash = {}, {}, []
+        for (base, pe), (vb, ve, vln) in pairs:
+            if pe == '_' or ve == '_':
+                continue
+            if fwd.setdefault(pe, ve) != ve or back.setdefault(ve, pe) != pe:
+                clash.append({'base': base, 'mask': pe, 'response': ve, 'elsewhere': fwd.get(pe) if fwd.get(pe) != ve else back.get(ve)})
+        ok = bool(P) and not lost and not clash
+        # judged on the form the pair has on the reviewed tree (so many powers written out in the prover, so many in the verifier): when the powers
+        # were moved into helpers, closures or iterator chains their order in one body says nothing any more - undecided, not a violation
+        if (len(P), len(V)) != PAIR_FORM.get(pp):
+            ok = None
+        yield Ob('RF-O', '%s#bases~%s' % (pp, vp.split('::')[-1]), ok,
+                 'the verifier raises the prover\'s bases, in the prover\'s order, to the responses that took the masks\' places', prog.bodies[pp].span,
+                 fact={'prover_powers': len(P), 'verifier_powers': len(V), 'bases_without_counterpart': lost[:4], 'masks_and_responses_that_do_not_correspond': clash[:4]},
+                 expected='same bases in the same order, one response per mask')
+    yield Ob('RF-O', 'cl03#prover-verifier-pairs', n >= 6, 'sigma-protocol prover / verifier pairs examined', '', fact=n, expected='>= 6', nontrivial=False)
+
+
+def rule_key_member_roles(ctx, cfg='prod-all'):
+    """The two elements of a CL03 public key have different jobs: `b` is a *base* (raised to s, to r, to masks; handed on as `h` of the sub-protocols),
+    `c` is a *factor* (multiplied in once; in the signature proof raised to the challenge by the verifier only).  Signing with `c^s * b` and
+    verifying with `b^s * c` are each consistent with themselves.  Every use of `pk.b` / `pk.c` (also `signer_pk`) in the CL03 code is one of the
+    uses its element has: b as base of a power, as argument of a sub-prover / sub-verifier, in `divm`, in a transcript; c as a factor of a
+    product, in a transcript, and as a base only in `nisp5_MultiAttr_verify_proof`."""
+    prog, eng = ctx.prog(cfg), ctx.eng(cfg)
+    B_USES = ('pow_mod_ref', 'pow_mod', 'secure_pow_mod', 'secure_pow_mod_ref', 'divm', 'to_string', 'write_digits', 'clone', 'eq', 'ne', 'cmp', 'fmt')
+    C_USES = ('mul', 'mul_assign', 'to_string', 'write_digits', 'clone', 'eq', 'ne', 'cmp', 'fmt')
+    n, bad = 0, []
+    for p, b in sorted(prog.bodies.items()):
+        if not p.startswith('cl03::') or b.from_expansion or p.startswith('cl03::keys::'):
+            continue
+        fd = eng.fndep(p)
+        for bi, t in b.calls():
+            short = (t.get('callee') or '').split('::')[-1]
+            local = local_target(eng, t)
+            for i, a in enumerate(t['args']):
+                if a.get('k') not in ('copy', 'move'):
+                    continue
+                nm = _operand_name(b, fd, a)
+                if not nm.endswith(('pk.b', 'pk.c')):
+                    continue
+                n += 1
+                member = nm[-1]
+                if member == 'b':
+                    ok = short in B_USES or (local is not None and local.startswith('cl03::'))
+                    if short.startswith(('pow_mod', 'secure_pow_mod')) and i != 0:
+                        ok = False       # b as an exponent or a modulus
+                else:
+                    ok = short in C_USES or (short.startswith('pow_mod') and i == 0 and p.endswith('nisp5_MultiAttr_verify_proof'))
+                if not ok:
+                    bad.append({'in': p.split('::')[-1], 'line': t.get('line'), 'member': member, 'used_as': '%s argument %d' % (short, i)})
+    yield Ob('RF-B', 'cl03#key-member-roles', not bad, 'pk.b is used as a base (or handed on as one), pk.c as a factor', '',
+             fact={'uses': n, 'other_uses': bad[:6]}, expected='b: base / argument / divm / transcript; c: factor / transcript')
+    yield Ob('RF-B', 'cl03#key-member-uses', n >= 20, 'uses of pk.b / pk.c examined', '', fact=n, expected='>= 20', nontrivial=False)
 
 
 PAYLOAD_ADAPTERS = ('::map', '::and_then', '::map_or', '::map_or_else', '::inspect', '::into_iter', '::iter', '::unwrap_or', '::unwrap_or_default', '::unwrap_or_else')
